@@ -335,13 +335,19 @@ def main(args):
     if rs.violation:
         raise tlc.MachineryFailure("event-level schedule model violated: " + rs.violation)
     ck.add_tlc(rs, "MC_Sched")
+    nsched_bad = 0
     for ex in rs.exports:
+        if nsched_bad >= 5:
+            break
         gi, (d, grp, table) = two[ex["g"] - 1]
         want = solos.get(gi) or [solo(d, m) for m in grp]
         got, problem = run_scheduled(d, grp, ex["sched"])
         ck.replayed += 1
         ck.count((d, gi, "events", tuple(ex["sched"])), True)
+        if (problem or got != want) and nsched_bad >= 5:
+            continue            # enough replay files of this kind; every further one costs a scheduler timeout
         if problem or got != want:
+            nsched_bad += 1
             ck.violation("thread_schedule_changes_errors", {"draft": d, "schemas": [m["schema"] for m in grp],
                                                             "instances": [m["instances"][0] for m in grp],
                                                             "event_schedule": ex["sched"], "errors_scheduled": got,
